@@ -1033,6 +1033,7 @@ func (m *Nitro) LoadFromDisk(dir string, concurr int, callb ItemCallback) (*Snap
 	var bs []byte
 	var err error
 	var checksums []uint32
+	var hasChecksums bool
 
 	manifestdir := dir
 	var version int
@@ -1052,10 +1053,18 @@ func (m *Nitro) LoadFromDisk(dir string, concurr int, callb ItemCallback) (*Snap
 	if bs, err = ioutil.ReadFile(filepath.Join(datadir, "files.json")); err != nil {
 		return nil, err
 	}
-	json.Unmarshal(bs, &files)
+	if err = json.Unmarshal(bs, &files); err != nil {
+		return nil, err
+	}
 
 	if bs, err := ioutil.ReadFile(filepath.Join(datadir, "checksums.json")); err == nil {
-		json.Unmarshal(bs, &checksums)
+		if err = json.Unmarshal(bs, &checksums); err != nil {
+			return nil, err
+		}
+		if len(checksums) != len(files) {
+			return nil, ErrCorruptSnapshot
+		}
+		hasChecksums = true
 	} else {
 		checksums = make([]uint32, len(files))
 	}
@@ -1106,7 +1115,7 @@ func (m *Nitro) LoadFromDisk(dir string, concurr int, callb ItemCallback) (*Snap
 					itm, err := r.ReadItem()
 					if err != nil {
 						errors[shard] = err
-						return
+						break loop
 					}
 
 					if itm == nil {
@@ -1124,7 +1133,7 @@ func (m *Nitro) LoadFromDisk(dir string, concurr int, callb ItemCallback) (*Snap
 	close(wchan)
 	wg.Wait()
 	for i, rdr := range readers {
-		if checksums[i] != 0 && checksums[i] != rdr.Checksum() {
+		if (hasChecksums || checksums[i] != 0) && checksums[i] != rdr.Checksum() {
 			return nil, ErrCorruptSnapshot
 		}
 	}
@@ -1146,15 +1155,26 @@ func (m *Nitro) LoadFromDisk(dir string, concurr int, callb ItemCallback) (*Snap
 		deltadir := filepath.Join(dir, "delta")
 		var files []string
 		if bs, err := ioutil.ReadFile(filepath.Join(deltadir, "files.json")); err == nil {
-			json.Unmarshal(bs, &files)
+			if err = json.Unmarshal(bs, &files); err != nil {
+				return nil, err
+			}
+		} else {
+			return nil, err
 		}
 
 		readers := make([]FileReader, len(files))
 		errors := make([]error, len(files))
 		writers := make([]*Writer, concurr)
 		deltaChecksums := make([]uint32, len(files))
+		var hasDeltaChecksums bool
 		if bs, err := ioutil.ReadFile(filepath.Join(deltadir, "checksums.json")); err == nil {
-			json.Unmarshal(bs, &deltaChecksums)
+			if err = json.Unmarshal(bs, &deltaChecksums); err != nil {
+				return nil, err
+			}
+			if len(deltaChecksums) != len(files) {
+				return nil, ErrCorruptSnapshot
+			}
+			hasDeltaChecksums = true
 		}
 
 		defer func() {
@@ -1188,7 +1208,7 @@ func (m *Nitro) LoadFromDisk(dir string, concurr int, callb ItemCallback) (*Snap
 						itm, err := r.ReadItem()
 						if err != nil {
 							errors[shard] = err
-							return
+							break loop
 						}
 
 						if itm == nil {
@@ -1225,7 +1245,7 @@ func (m *Nitro) LoadFromDisk(dir string, concurr int, callb ItemCallback) (*Snap
 		wg.Wait()
 
 		for i, rdr := range readers {
-			if deltaChecksums[i] != 0 && deltaChecksums[i] != rdr.Checksum() {
+			if (hasDeltaChecksums || deltaChecksums[i] != 0) && deltaChecksums[i] != rdr.Checksum() {
 				return nil, ErrCorruptSnapshot
 			}
 		}
